@@ -91,6 +91,9 @@ def apply_set_attr(obj, idx, attr, cls=None):
 # --------------------------------------------------------------------------- generation
 
 
+PROC_ZONES = ["Europe/Berlin", "America/New_York", "Asia/Kolkata", "Australia/Lord_Howe", "UTC", "Pacific/Kiritimati"]
+
+
 def gen_plan(rng, run_index, tier, opts):
     env = specs.Env(rng, max_T=36)
     env.allow_date_only_zone = True
@@ -219,9 +222,14 @@ def gen_plan(rng, run_index, tier, opts):
             # retry after the fault: a clean save + load must work again (bounded liveness)
             steps.append({"op": "save", "path": "file"})
             steps.append({"op": "load", "path": "file"})
-    return {"world": world, "target": target, "probes": [[g, prices[g]] for g in probes], "home": g0,
+    plan = {"world": world, "target": target, "probes": [[g, prices[g]] for g in probes], "home": g0,
             "own_grid": bool(own_grid and target[0] == "P"), "steps": steps, "cfg": {"mip": mip},
             "fname": rng.choice(["obj.json", "obj.json", "obj.json", "portfolio", "book.v2", "P.JSON", "dir/obj.json"])}
+    # (round 10, drawn last) the zone of the machine: of the process that saves and of every restarted process
+    if rng.random() < 0.4:
+        n_proc = 1 + sum(1 for s_ in steps if s_["op"] == "restart" or s_.get("fault") == "crash")
+        plan["proc_tz"] = [rng.choice(PROC_ZONES) for _ in range(n_proc)]
+    return plan
 
 
 # --------------------------------------------------------------------------- executor
@@ -520,6 +528,13 @@ class Run:
         self.text = None
         self.text_snap = None
         self.fault("restart")
+        ptz = self.plan.get("proc_tz")
+        if ptz:
+            # the new process may run on a machine in another zone
+            self.n_proc += 1
+            z_ = ptz[min(self.n_proc, len(ptz) - 1)]
+            self.zone.set(z_)
+            self.fault("process_zone_" + z_)
         self.did_setup = False
         self.did_setup_aware = False
         self.events.append((i, "restart", ""))
@@ -668,16 +683,26 @@ class Run:
 
     def cover(self, st, result):
         hist = ",".join(sorted(set(self.hist_sig))) or "nohist"
-        key = "%s|%s|%s|%s|%s" % (st["path"], st.get("fault", "-"), result, hist, "+".join(self.class_sig()))
+        pz = self.plan.get("proc_tz")
+        zsig = "-" if not pz else ("zone" if len(set(pz[:self.n_proc + 1])) == 1 else "zones-differ")
+        key = "%s|%s|%s|%s|%s|%s" % (st["path"], st.get("fault", "-"), result, hist, zsig, "+".join(self.class_sig()))
         trivial = st["path"] == "string" and not self.hist_sig
         self.pairs.add(("T|" if trivial else "N|") + key)
 
     def run(self):
-        with core.quiet():
-            for i, st in enumerate(self.plan["steps"]):
-                self.step(i, st)
-                if self.violation is not None:
-                    break
+        zone = seams.ProcessZone()
+        self.zone, self.n_proc = zone, 0
+        try:
+            if self.plan.get("proc_tz"):
+                zone.set(self.plan["proc_tz"][0])
+                self.fault("process_zone_" + self.plan["proc_tz"][0])
+            with core.quiet():
+                for i, st in enumerate(self.plan["steps"]):
+                    self.step(i, st)
+                    if self.violation is not None:
+                        break
+        finally:
+            zone.restore()
         dg = canon.digest_canon([list(e) for e in self.events])
         return {"violation": self.violation, "digest": dg, "stats": self.stats, "faults": self.faults,
                 "probes": self.probes, "pairs": sorted(self.pairs), "n_steps": len(self.plan["steps"])}
@@ -758,6 +783,10 @@ def simplify_candidates(plan):
                 c = copy.deepcopy(plan)
                 c["world"]["portfolios"][t]["assets"] = [x for x in assets if x != a]
                 yield c
+    if plan.get("proc_tz"):
+        c = copy.deepcopy(plan)
+        c.pop("proc_tz")
+        yield c
     for i, st in enumerate(plan["steps"]):
         if st.get("fault"):
             c = copy.deepcopy(plan)
@@ -803,7 +832,7 @@ def aggregate(results):
     agg["distinct_pairs_total"] = len(pairs)
     agg["rule"] = ("one evaluation = one simulated run (object pool, history of 0-3 calls per generation, 1-3 save/load generations on "
                    "SimDisk or as string, faults and restarts from the plan). distinct_nontrivial counts distinct cells (save/load path, "
-                   "fault kind, outcome acked/unacked/raised, kinds of calls in the history before the save, asset-class set of the "
+                   "fault kind, outcome acked/unacked/raised, kinds of calls in the history before the save, zone of the process(es), asset-class set of the "
                    "saved object); a string round trip of a never-used object is trivial")
     agg["simulated_time"] = "%d logical steps (no clock in EAO)" % steps
     agg["distinct_event_log_digests"] = len(digs)
